@@ -209,7 +209,7 @@ def cosim_one(args):
     Stateful.set_state = traced_set
     try:
         ctx = vrt.run_scenario(scenario, refbroker.factory(policy), seed=seed, p_preempt=0.15, p_jump=0.1,
-                               repo_path=str(common.REPO))
+                               fair_time=(seed % 2 == 1), repo_path=str(common.REPO))
     finally:
         Connection._get_next_available_channel_id = orig_next
         Stateful.set_state = orig_set
